@@ -246,9 +246,10 @@ class Asset(DaeObject):
 
         unitnode = node.find(collada.tag('unit'))
         if unitnode is not None:
-            unitname = unitnode.get('name')
+            # both attributes are optional, with these defaults (COLLADA 1.4.1)
+            unitname = unitnode.get('name', 'meter')
             try:
-                unitmeter = float(unitnode.get('meter'))
+                unitmeter = float(unitnode.get('meter', '1.0'))
             except BaseException:
                 unitname = None
                 unitmeter = None
